@@ -27,6 +27,7 @@ func vC16Req(host, scheme, path, query string, tag string, withScope bool, rever
 	return req
 }
 
+// with reverse-proxy off the request host/proto/URI/path getters ignore X-Forwarded-* (self-composition)
 // verif: unwind=3
 func vh_C16_getters() {
 	host := ndString("host")
